@@ -1,34 +1,62 @@
+(* CapProofs.v — the C10 theorems about the interleaving model (variant fixed = true). *)
 From Coq Require Import ZArith List Bool Arith Lia.
-From CV Require Import Cap.Cap.
+From CV Require Import Cap.Cap Cap.CapInv Cap.CapLemmas Cap.CapStep Cap.CapCases Cap.CapFulfill.
 Import ListNotations.
 Open Scope Z_scope.
 
-(* A call (SendCall/RecvCall) made by thread t through client c, at the moment it has
-   acquired c.mu: if c has no hook (nil, released, or resolved to null) the op completes at
-   once with the error result, no event is emitted and no hook changes. *)
-Definition null_released_error_stmt : Prop :=
-  forall fixed g t th recv c cl g',
-    nth_error (threads g) t = Some th -> t_pc th = CLock (KCall recv) c ->
-    get_client g c = Some cl -> c_h cl = None ->
-    step fixed g t = Some g' ->
-    events g' = events g /\ hooks g' = hooks g /\
-    exists th', nth_error (threads g') t = Some th' /\ t_pc th' = Idle /\ t_res th' = RErr :: t_res th.
-
-Lemma nth_error_upd_same : forall A (l : list A) n f x,
-  nth_error l n = Some x -> nth_error (upd n f l) n = Some (f x).
+(* ---------------------------------------------------------------- every step preserves Inv *)
+Theorem step_preserves_inv : forall g t g',
+  Inv g -> step true g t = Some g' -> misuse g' = false -> Inv g'.
 Proof.
-  induction l as [|a l IH]; intros [|n] f x H; simpl in *; try discriminate.
-  - inversion H; reflexivity.
-  - apply IH; assumption.
-Qed.
-
-Lemma null_released_error : null_released_error_stmt.
-Proof.
-  unfold null_released_error_stmt, step. intros fixed g t th recv c cl g' Hth Hpc Hc Hh Hs.
-  rewrite Hth, Hpc, Hc in Hs.
-  destruct (c_mu cl) eqn:Hmu; [discriminate|].
-  inversion Hs; subst g'; clear Hs.
-  unfold clock_step. rewrite Hh. unfold finish; simpl.
-  repeat split.
-  eexists. split. { apply nth_error_upd_same. exact Hth. } simpl. auto.
+  intros g t g' I Hs Hm.
+  destruct (nth_error (threads g) t) as [th|] eqn:Hth; [|unfold step in Hs; rewrite Hth in Hs; discriminate].
+  destruct (t_pc th) eqn:Hpc.
+  - (* Idle *)
+    destruct (t_prog th) as [|o rest] eqn:Hprog.
+    { unfold step in Hs. rewrite Hth, Hpc, Hprog in Hs. discriminate. }
+    destruct o; try (eapply step_Idle_plain; eauto; intros; discriminate).
+    + eapply step_Idle_new; eauto.
+    + eapply step_Idle_new; eauto.
+  - eapply step_CLock; eauto.
+  - (* CWalk *)
+    destruct (get_hook g cur) as [hk|] eqn:Hx.
+    2: { unfold step in Hs. rewrite Hth, Hpc, Hx in Hs. discriminate. }
+    destruct (forwarded cur hk) eqn:Hf.
+    + destruct (h_rh hk) eqn:Hr.
+      * eapply step_CWalk_hop; eauto.
+      * eapply step_CWalk_nil; eauto.
+    + destruct k.
+      * eapply step_CWalk_end_addref; eauto.
+      * eapply step_CWalk_end_release; eauto.
+      * eapply step_CWalk_end_call; eauto.
+      * eapply step_CWalk_end_simple; eauto.
+      * eapply step_CWalk_end_simple; eauto 6.
+      * eapply step_CWalk_end_simple; eauto 7.
+      * eapply step_CWalk_end_simple; eauto 7.
+  - (* WWalk *)
+    destruct (get_hook g cur) as [hk|] eqn:Hx.
+    2: { unfold step in Hs. rewrite Hth, Hpc, Hx in Hs. discriminate. }
+    destruct (forwarded cur hk) eqn:Hf.
+    + eapply step_WWalk_plain; eauto.
+    + destruct (Z.eq_dec (h_refs hk) 0).
+      * eapply step_WWalk_plain; eauto.
+      * eapply step_WWalk_ok; eauto.
+  - eapply step_InCall; eauto.
+  - eapply step_CallFin; eauto.
+  - eapply step_WaitDone; eauto.
+  - eapply step_FLock; eauto.
+  - (* FMark *)
+    destruct (get_hook g p) as [hk|] eqn:Hx.
+    2: { unfold step in Hs. rewrite Hth, Hpc, Hx in Hs. discriminate. }
+    destruct (h_resolved hk) eqn:Hr.
+    + eapply step_FMark_resolved; eauto.
+    + eapply step_FMark_unresolved; eauto.
+  - (* FWalk *)
+    destruct (get_hook g cur) as [hk|] eqn:Hx.
+    2: { unfold step in Hs. rewrite Hth, Hpc, Hx in Hs. discriminate. }
+    destruct (forwarded cur hk) eqn:Hf.
+    + destruct (h_rh hk) eqn:Hr.
+      * eapply step_FWalk_hop; eauto.
+      * eapply step_FWalk_nil; eauto.
+    + eapply step_FWalk_end; eauto.
 Qed.
